@@ -22,6 +22,7 @@ type Workload struct {
 	Kind    string `json:"kind"`    // value | symref | peeled | delete
 	Fresh   bool   `json:"fresh"`   // fresh names every transaction, or the same names rewritten
 	Logs    bool   `json:"logs"`
+	Tiny    bool   `json:"tiny"`
 	Split   bool   `json:"split"` // Add without auto-compaction followed by an explicit AutoCompact (sizes observable in between)
 	Hash    string `json:"hash"`
 	Block   uint32 `json:"blocksize"`
@@ -116,7 +117,9 @@ func runWorkload(w Workload) Out {
 			wr.SetLimits(idx, idx)
 			names := []string{}
 			for k := 0; k < nrefs; k++ {
-				if w.Fresh {
+				if w.Tiny {
+					names = append(names, fmt.Sprintf("b%d.%d", n, k)) // as small as a transaction gets
+				} else if w.Fresh {
 					names = append(names, fmt.Sprintf("refs/heads/%s%08d-%03d", pad, n, k))
 				} else {
 					names = append(names, fmt.Sprintf("refs/heads/%s%03d", pad, k))
@@ -133,6 +136,9 @@ func runWorkload(w Workload) Out {
 					rec.Value, rec.TargetValue = h, append([]byte("p"), h[1:]...)
 				case "symref":
 					rec.Target = "refs/heads/master"
+					if w.Tiny {
+						rec.Target = "m"
+					}
 				case "delete":
 				}
 				if err := wr.AddRef(&rec); err != nil {
